@@ -5,10 +5,10 @@ import SecsModel.Model.Hsms
 Driver domain `hsmsfsm`.
 
     hsmsfsm run <a|p> <ctr> <d1><d2> <op,op,…|->      one history; d1 = selectRspUnchecked, d2 = separateIgnored (0|1)
-       op := con | pcl | dib | die | rx.<stype>.<sys>.<status> | dat.<stream>.<function>.<w>.<sys>.<decodable>
+       op := con | pcl | dib | die | rx.<stype>.<sys>.<status> | dat.<stream>.<function>.<w>.<sys>.<decodable> | datq.<…same…> (dispatch of a block queued earlier)
            | api.sel | api.des | api.lnk | t6.<sys>
        stype := selreq | selrsp | desreq | desrsp | lnkreq | lnkrsp | rejreq | sepreq
-    -> ok <conn> dis=<0|1> ctr=<n> open=<sys>/<kind>;… | <conn> tx=<stype>/<sys>/<b2>/<b3>;… ev=<name>;… dl=<app|wait>/<sys>;… err=<ErrKind>;… | …
+    -> ok <conn> dis=<0|1> ctr=<n> open=<sys>/<kind>;… | <conn> tx=<stype>/<sys>/<b2>/<b3>;… ev=<name>;… dl=<app|wait>/<sys>;… err=<ErrKind>;… [blk=<frames put into the send queue without a connection>] | …
     hsmsfsm race <gen|old> <schedule of a/d letters|-|eager|lazy>
     -> ok conn=<conn> started=<0|1> rsp=<0|1> raised=<0|1> final=<0|1>
 -/
@@ -33,6 +33,9 @@ def parseOp (s : String) : Option In :=
   | ["dat", st, f, w, sys, d] => do
     let st ← parseInt st; let f ← parseInt f; let w ← parseBool w; let sys ← parseInt sys; let d ← parseBool d
     pure (.rxData st f w sys d)
+  | ["datq", st, f, w, sys, d] => do
+    let st ← parseInt st; let f ← parseInt f; let w ← parseBool w; let sys ← parseInt sys; let d ← parseBool d
+    pure (.rxDataQueued st f w sys d)
   | ["api", "sel"] => some .apiSelect
   | ["api", "des"] => some .apiDeselect
   | ["api", "lnk"] => some .apiLinktest
@@ -55,7 +58,8 @@ def showOuts (os : List Out) : String :=
   let ev := os.filterMap (fun o => match o with | .evt n => some n | _ => none)
   let dl := os.filterMap (fun o => match o with | .deliverApp sys => some s!"app/{sys}" | .deliverWaiter sys => some s!"wait/{sys}" | _ => none)
   let er := os.filterMap (fun o => match o with | .swallowed e => some e.name | _ => none)
-  s!"tx={joinOr tx} ev={joinOr ev} dl={joinOr dl} err={joinOr er}"
+  let bl := os.filterMap (fun o => match o with | .txBlocked st sys b2 b3 => some s!"{st}/{sys}/{b2}/{b3}" | _ => none)
+  s!"tx={joinOr tx} ev={joinOr ev} dl={joinOr dl} err={joinOr er}" ++ (if bl.isEmpty then "" else s!" blk={joinOr bl}")
 
 /-- the run, showing the connection state after every step -/
 def trace (d : Defects) : St → List In → List String
